@@ -125,6 +125,9 @@ func escape(s string, m map[rune]string) string {
 			v = append(v, `\`+string(c))
 		default:
 			var s string
+
+			char := c
+
 			if IsControl(c) {
 				s += `\C-`
 				c = Decontrol(c)
@@ -135,9 +138,14 @@ func escape(s string, m map[rune]string) string {
 				c = Demeta(c)
 			}
 
-			if unicode.IsPrint(c) {
+			switch {
+			case char <= 0xff && (!unicode.IsPrint(c) || c == '\\' || c == '"' || c == '\''):
+				// A prefix followed by a backslash, a quote or an unprintable
+				// character is not read back as the same key: use its hex code.
+				s = fmt.Sprintf(`\x%02x`, char)
+			case unicode.IsPrint(c):
 				s += string(c)
-			} else {
+			default:
 				s += fmt.Sprintf(`\x%2x`, c)
 			}
 
